@@ -427,17 +427,15 @@ class Engine(Executor):
         appends to local lists and (b) assignments to scalar locals.  The body is executed once for a generic element;
         scalars assigned in the body are havocked at the start of the generic iteration (sound over-approximation) and
         take their end-of-last-iteration value after the loop."""
-        if not (len(lt.segs) == 1 and isinstance(lt.segs[0], L.MapSeg) and len(lt.segs[0].body.segs) == 1):
+        if not (len(lt.segs) == 1 and isinstance(lt.segs[0], L.MapSeg)):
             raise Unsupported("loop over a list term of this shape")
         seg = lt.segs[0]
-        elem_guard = z3.BoolVal(True)  # the element at index ivar exists only under this guard (filtered lists)
-        b0 = seg.body.segs[0]
-        if isinstance(b0, L.Guard) and len(b0.lt.segs) == 1 and isinstance(b0.lt.segs[0], L.Unit):
-            elem_guard, elem = b0.cond, b0.lt.segs[0].v
-        elif isinstance(b0, L.Unit):
-            elem = b0.v
-        else:
+        one = L.single_element(seg.body)
+        if one is None:
             raise Unsupported("loop over a list term of this shape")
+        elem_guard, elem = one  # the element at index ivar exists only under this guard (filtered lists)
+        if elem_guard is None:
+            elem_guard = z3.BoolVal(True)
         assigned = sorted(assigned_names(ast.Module(body=stmt.body, type_ignores=[])))
         accs = {}
         for n, v in st.frame.locals.items():
@@ -469,6 +467,28 @@ class Engine(Executor):
             cur = base.frame.locals.get(n, _UNBOUND)
             pre_vals[n] = cur
             base.frame.locals[n] = _HAVOC  # value from the previous iteration: unknown; reading it is unsupported
+        # a loop invariant from the side-car contract gives loop-carried scalars a value in the generic iteration
+        inv = self.invariant_for(st, stmt)
+        inv_names: List[str] = []
+        inv_axiom = None
+        if inv is not None:
+            if not z3.is_true(z3.simplify(elem_guard)):
+                raise Unsupported("loop invariant on a loop over a filtered sequence")
+            inv_c, inv_clause, inv_params = inv
+            inv_names = [n for n in inv_params if n in pre_vals]
+            f0 = inv_c.clause_formula(self, st, inv_clause, self._inv_env(st, inv_params, sv_int(0)))
+            self.side_obligations.append((f"loop-invariant/{inv_clause}/holds-on-entry", list(st.pc), f0,
+                                          f"loop invariant {inv_clause} before the first iteration"))
+            saved_ctx0 = self.index_ctx
+            self.index_ctx = list(saved_ctx0) + [seg.ivar]
+            try:
+                for n in inv_names:
+                    base.frame.locals[n] = self._fresh_like(pre_vals[n], n)
+            finally:
+                self.index_ctx = saved_ctx0
+            inv_axiom = inv_c.clause_formula(self, base, inv_clause,
+                                             self._inv_env(base, inv_params, SV(mk_i(seg.ivar), "int")))
+            base.assume(inv_axiom, axiom=True)
         # fresh accumulators for the generic iteration so that insertions can be collected
         marks = {}
         for n, r in accs.items():
@@ -493,7 +513,20 @@ class Engine(Executor):
             guard_list, ax = s.split(s.pc[pc_len + 1:])
             guard = z3.And(*guard_list) if guard_list else z3.BoolVal(True)
             for a_ in ax:
-                st.assume(z3.ForAll([seg.ivar], a_), axiom=True)
+                if inv_axiom is not None and a_.eq(inv_axiom):
+                    # induction hypothesis: holds at the start of every iteration in range (entry + preservation)
+                    st.assume(z3.ForAll([seg.ivar], z3.Implies(z3.And(seg.ivar >= 0, seg.ivar < seg.n), a_)), axiom=True)
+                else:
+                    st.assume(z3.ForAll([seg.ivar], a_), axiom=True)
+            if inv is not None and (ctl is None or ctl[0] == "continue"):
+                for n in inv_names:
+                    nv, ov = s.frame.locals.get(n), base.frame.locals[n]
+                    if not (isinstance(nv, SV) and nv.ty == ov.ty):
+                        raise Unsupported(f"loop-carried local {n} changes its type")
+                f1 = inv_c.clause_formula(self, s, inv_clause,
+                                          self._inv_env(s, inv_params, SV(mk_i(seg.ivar + 1), "int")))
+                self.side_obligations.append((f"loop-invariant/{inv_clause}/is-preserved", list(s.pc), f1,
+                                              f"loop invariant {inv_clause} after a generic iteration"))
             if ctl is not None and ctl[0] in ("raise", "return"):
                 # leaving the loop from a generic iteration: allowed, reported as an exit at index ivar
                 exits.append((s, ctl))
@@ -565,8 +598,53 @@ class Engine(Executor):
                         s2.frame.locals[n] = _LOOPVAR
                 for n in _names(stmt.target):
                     s2.frame.locals[n] = _LOOPVAR
+                if inv is not None:
+                    # after the last iteration the invariant holds for iteration == n (conclusion of the induction)
+                    for n in inv_names:
+                        s2.frame.locals[n] = self._fresh_like(pre_vals[n], n + "_final")
+                    s2.assume(inv_c.clause_formula(self, s2, inv_clause,
+                                                   self._inv_env(s2, inv_params, SV(mk_i(seg.n), "int"))), axiom=True)
                 out.append((s2, None))
         return out
+
+    def invariant_for(self, st: State, stmt: ast.For):
+        """(contract, clause name, clause parameters) of the invariant the contract under verification declares for this
+        loop (loops of the verified function are numbered in source order), or None"""
+        c = getattr(self, "verifying", None)
+        table = getattr(c.cls, "loop_invariants", None) if c is not None else None
+        if not table or st.frame.qualname != c.target:
+            return None
+        node = self.repo.function(c.target)[1]
+        loops = sorted((n for n in ast.walk(node) if isinstance(n, ast.For)), key=lambda n: (n.lineno, n.col_offset))
+        for k, n in enumerate(loops):
+            if n is stmt or (n.lineno, n.col_offset) == (stmt.lineno, stmt.col_offset):
+                clause = table.get(k)
+                if clause is None:
+                    return None
+                fv = c.clause_fn(self, clause)
+                return c, clause, [a.arg for a in fv.node.args.args]
+        return None
+
+    def _inv_env(self, st: State, params: List[str], iteration) -> Dict[str, Any]:
+        env: Dict[str, Any] = {}
+        for p in params:
+            if p == "iteration":
+                env[p] = iteration
+                continue
+            v = st.frame.locals.get(p, _UNBOUND)
+            if v is _UNBOUND or v is _HAVOC or v is _LOOPVAR:
+                raise Unsupported(f"loop invariant reads {p}, which has no value here")
+            env[p] = v
+        return env
+
+    def _fresh_like(self, v, name: str) -> SV:
+        if isinstance(v, SV) and v.ty == "int":
+            return SV(mk_i(self.fresh(name, z3.IntSort())), "int")
+        if isinstance(v, SV) and v.ty == "bool":
+            return SV(mk_b(self.fresh(name, z3.BoolSort())), "bool")
+        if isinstance(v, SV) and v.ty == "str":
+            return SV(mk_s(self.fresh(name, z3.StringSort())), "str")
+        raise Unsupported(f"loop invariant over a local of this kind: {v!r}")
 
     # ------------------------------------------------------------------------------------------------ calls
     def e_Call(self, e: ast.Call, st: State) -> List[Res]:
@@ -1268,6 +1346,11 @@ def _force_gather(self: Engine, st: State, g: CoroV) -> List[Res]:
 def _await_value(self: Engine, st: State, v) -> List[Res]:
     if isinstance(v, CoroV):
         return self.await_(st, v)
+    if isinstance(v, Ref) and isinstance(st.heap.get(v.oid), Obj):
+        from pyvc import assumed
+        hook = assumed.AWAIT_HOOKS.get(st.heap[v.oid].cls)
+        if hook is not None:
+            return hook(self, st, v)
     raise Unsupported(f"gather of a non-awaitable {v!r}")
 
 
@@ -1300,12 +1383,14 @@ def _force_lt(self: Engine, st: State, lt: L.LT) -> List[Tuple[State, Any]]:
 
 
 def _force_mapseg(self: Engine, st: State, seg: L.MapSeg) -> List[Tuple[State, Any]]:
-    if not (seg.body.is_concrete() and len(seg.body.segs) == 1):
-        raise Unsupported("gather over a list term of this shape")
-    thunk = seg.body.segs[0].v
+    one = L.single_element(seg.body)
+    if one is None:
+        raise Unsupported(f"gather over a list term of this shape: {seg.body!r}")
+    elem_guard, thunk = one   # filtered sequence: only the elements under the guard are awaited
     probe = st.fork()
     n0 = len(probe.pc)
-    probe.assume(z3.And(seg.ivar >= 0, seg.ivar < seg.n))
+    probe.assume(z3.And(seg.ivar >= 0, seg.ivar < seg.n) if elem_guard is None
+                 else z3.And(seg.ivar >= 0, seg.ivar < seg.n, elem_guard))
     saved_ctx = self.index_ctx
     self.index_ctx = list(saved_ctx) + [seg.ivar]  # every symbol the callee introduces for the generic element is a function of its index
     try:
@@ -1319,6 +1404,8 @@ def _force_mapseg(self: Engine, st: State, seg: L.MapSeg) -> List[Tuple[State, A
         if self.feasible(s.pc):
             out.append((s, r))  # some element (the Skolem index ivar) raises: gather propagates it
     if len(normal) != 1:
+        if elem_guard is not None:
+            raise Unsupported("gather over a filtered sequence whose elements have not exactly one normal outcome")
         if not normal:
             # every element raises: only possible outcome besides the empty list
             for s, zero in self.branch(st, seg.n <= 0):
@@ -1330,11 +1417,14 @@ def _force_mapseg(self: Engine, st: State, seg: L.MapSeg) -> List[Tuple[State, A
     extra = s_ok.pc[n0 + 1:]
     for k, o in s_ok.heap.items():
         st.heap.setdefault(k, o)
+    rng = z3.And(seg.ivar >= 0, seg.ivar < seg.n) if elem_guard is None \
+        else z3.And(seg.ivar >= 0, seg.ivar < seg.n, elem_guard)
     if extra:
         # facts the callee's contract gives about the generic element hold for every index
-        st.assume(z3.ForAll([seg.ivar], z3.Implies(z3.And(seg.ivar >= 0, seg.ivar < seg.n), z3.And(*extra))))
+        st.assume(z3.ForAll([seg.ivar], z3.Implies(rng, z3.And(*extra))))
     st.log.extend(x for x in s_ok.log[len(st.log):] if x not in st.log)
-    out.append((st, L.LT([L.MapSeg(seg.ivar, seg.n, L.LT([L.Unit(r)]), seg.src)])))
+    inner = L.LT([L.Unit(r)]) if elem_guard is None else L.LT([L.Guard(elem_guard, L.LT([L.Unit(r)]))])
+    out.append((st, L.LT([L.MapSeg(seg.ivar, seg.n, inner, seg.src)])))
     return out
 
 
